@@ -92,6 +92,7 @@ RemoveAllOf(seq, x) == SelectSeq(seq, LAMBDA y : y # x)
    writer: every writer operation ignores it).  The result is a SET
    of configurations: a singleton except for removal from a list holding the writer twice,
    where the documentation does not say whether one or all occurrences go.                    *)
+TsDefaultLayoutC == "2006-01-02T15:04:05.999999999Z07:00"
 SetterKinds == {"JSONMode", "ColorMode", "UTCMode", "TimeFormat", "Level", "Attrs", "Attrs1", "SetKV", "Attrs0", "AttrsN", "Skip", "CtxKeys", "CtxReset",
                 "Writer", "AddWriter", "RemoveWriter", "ErrorWriter", "AddErrorWriter",
                 "RemoveErrorWriter", "AddLevelWriter", "RemoveLevelWriter", "ResetLevelWriter",
@@ -106,7 +107,7 @@ ApplyK(c, k, a, b) ==
       [] k = "UTCMode" ->
            LET m == LastOr(BoolLists[a], TRUE) IN {[c EXCEPT !.utc = IF m THEN 2 ELSE 1]}
       [] k = "TimeFormat" ->
-           {[c EXCEPT !.layout = IF Layouts[a] = "" THEN "2006-01-02T15:04:05.999999999Z07:00" ELSE Layouts[a]]}
+           {[c EXCEPT !.layout = IF Layouts[a] = "" THEN TsDefaultLayoutC ELSE Layouts[a]]}
       [] k = "Level" -> {[c EXCEPT !.level = a]}
       \* SetAttrs(attr) / SetAttrs1(Attrs{attr}) / Set(key, value): all append one attribute
       [] k \in {"Attrs", "Attrs1", "SetKV"} -> {[c EXCEPT !.attrs = Append(c.attrs, <<a, b>>)]}
@@ -267,6 +268,25 @@ Ret(s, e, s2) ==
 (* Derived observations: what the public API must show in state s.                            *)
 
 Fmt(c) == IF c.json THEN "json" ELSE IF c.color THEN "color" ELSE "logfmt"
+
+(* Timestamp of a record (C16, here as part of the logger system): the zone follows the logger's
+   zone mode, else the process-wide local-time flag; the layout is the logger's own if it has
+   one, else the one the date/time/microseconds flags select (cvt.go, defaultLayouts).  For the
+   two flag combinations the table does not list, the statement fixes no layout.             *)
+TsDefaultLayout == "2006-01-02T15:04:05.999999999Z07:00"       \* SetTimeFormat() / SetTimeFormat("")
+TsExported == {"15:04:05Z07:00", "15:04:05.000000Z07:00", "2006-01-0215:04:05Z07:00",
+               "2006-01-02T15:04:05.000000Z07:00", TsDefaultLayout}
+TsFlagLayouts(df) ==
+    CASE df = {"date"} -> {"2006-01-02"}
+      [] df = {"time"} -> {"15:04:05Z07:00"}
+      [] df = {"time", "micro"} -> {"15:04:05.000000Z07:00"}
+      [] df = {"date", "time"} -> {"2006-01-0215:04:05Z07:00"}
+      [] df = {"date", "micro"} -> {"2006-01-02T15:04:05.000000Z07:00"}
+      [] df = {"date", "time", "micro"} -> {"2006-01-02T15:04:05.000000Z07:00"}
+      [] OTHER -> TsExported
+TsZone(s, l) == IF s.cfg[l].utc = 2 \/ (s.cfg[l].utc = 0 /\ "localTime" \notin s.flags) THEN "UTC" ELSE "Own"
+TsLayouts(s, l) == IF s.cfg[l].layout # "" THEN {s.cfg[l].layout}
+                   ELSE TsFlagLayouts(s.flags \cap {"date", "time", "micro"})
 
 \* C03: destinations of a record of severity r emitted by logger l
 Dest(s, l, r) ==
